@@ -799,7 +799,6 @@ func (s *flattenSlicesStream[T]) Next(ctx context.Context) (T, error) {
 	for {
 		if len(s.buffer) > 0 {
 			item := s.buffer[0]
-			s.buffer[0] = zero
 			s.buffer = s.buffer[1:]
 			return item, nil
 		}
